@@ -6,8 +6,11 @@ package c14
 // GOAWAY frames.
 
 import (
+	"context"
 	"fmt"
 	"math/rand"
+	"os"
+	"runtime"
 	"strconv"
 	"sync"
 	"testing/synctest"
@@ -19,6 +22,7 @@ import (
 	"google.golang.org/grpc/keepalive"
 	"google.golang.org/grpc/metadata"
 	"google.golang.org/grpc/status"
+	"google.golang.org/grpc/tap"
 	"google.golang.org/grpc/verif/vlib"
 	"google.golang.org/grpc/verif/wire"
 )
@@ -36,7 +40,11 @@ type bscenario struct {
 	NConn   int           `json:"nconn"`
 	AutoAck bool          `json:"auto_ack"` // the scripted clients ack the drain PING at once
 	Seed    int64         `json:"seed"`
-	Steps   []bstep       `json:"steps"`
+	// Yield > 0 installs a tap handle (runs inside the transport's header
+	// processing) that yields the processor that many times: a collaborator we own
+	// that stretches the window between accepting a stream and registering it.
+	Yield int     `json:"yield,omitempty"`
+	Steps []bstep `json:"steps"`
 }
 
 func genServer(rng *rand.Rand) bscenario {
@@ -44,6 +52,7 @@ func genServer(rng *rand.Rand) bscenario {
 	if sc.Mode == "maxage" {
 		sc.Age = vlib.Pick(rng, 10*time.Second, time.Minute)
 	}
+	sc.Yield = vlib.Pick(rng, 0, 0, 0, 20, 200)
 	n := 8 + rng.Intn(28)
 	drainAt := rng.Intn(n)
 	for k := 0; k < n; k++ {
@@ -67,6 +76,26 @@ func genServer(rng *rand.Rand) bscenario {
 			sc.Steps = append(sc.Steps, bstep{K: "wait"})
 		}
 	}
+	return sc
+}
+
+// genServerRace is a directed template for the window between the drain PING's
+// ack and the final GOAWAY: streams are opened, and an older stream is reset,
+// in the same burst as the ack.
+func genServerRace(rng *rand.Rand) bscenario {
+	sc := bscenario{Mode: "gstop", NConn: 1, AutoAck: false, Seed: rng.Int63(), Yield: vlib.Pick(rng, 0, 10, 100, 1000)}
+	sc.Steps = append(sc.Steps, bstep{K: "open", N: 1 + rng.Intn(3)}, bstep{K: "wait"}, bstep{K: "drain"}, bstep{K: "wait"})
+	if rng.Intn(3) == 0 {
+		sc.Steps = append(sc.Steps, bstep{K: "open", N: 1 + rng.Intn(2)}, bstep{K: "wait"})
+	}
+	burst := []bstep{{K: "ack"}, {K: vlib.Pick(rng, "rst", "release", "release"), N: 3}, {K: "open", N: 1 + rng.Intn(4)}}
+	if rng.Intn(2) == 0 { // the ack last: streams precede it
+		burst[0], burst[2] = burst[2], burst[0]
+	}
+	if rng.Intn(2) == 0 {
+		burst = append(burst, bstep{K: vlib.Pick(rng, "rst", "release"), N: 1}, bstep{K: "open", N: 1 + rng.Intn(2)})
+	}
+	sc.Steps = append(sc.Steps, burst...)
 	return sc
 }
 
@@ -133,7 +162,15 @@ func runServer(sc bscenario) *result {
 		return nil
 	}
 	// static windows: no BDP pings, so every PING the server sends is the drain PING
-	opts := []grpc.ServerOption{grpc.InitialWindowSize(1 << 16), grpc.InitialConnWindowSize(1 << 16)}
+	opts := []grpc.ServerOption{grpc.StaticStreamWindowSize(1 << 16), grpc.StaticConnWindowSize(1 << 16)}
+	if sc.Yield > 0 {
+		opts = append(opts, grpc.InTapHandle(func(ctx context.Context, _ *tap.Info) (context.Context, error) {
+			for i := 0; i < sc.Yield; i++ {
+				runtime.Gosched()
+			}
+			return ctx, nil
+		}))
+	}
 	if sc.Mode == "maxage" {
 		opts = append(opts, grpc.KeepaliveParams(keepalive.ServerParameters{MaxConnectionAge: sc.Age}))
 	}
@@ -327,16 +364,34 @@ func runServer(sc bscenario) *result {
 
 	// ---- verdicts per connection, from the wire log and the handler records ----
 	mu.Lock()
+	if os.Getenv("VERIF_DEBUG") != "" {
+		for _, c := range conns {
+			for _, e := range c.peer.Log() {
+				fmt.Printf("DBG conn%d %s\n", c.idx, e.String())
+			}
+		}
+		for _, s := range order {
+			fmt.Printf("DBG stream %s phase=%s runs=%d cancelled=%v rst=%v code=%v\n", s.key, s.phase, s.runs, s.cancelled, s.rst, s.code)
+		}
+	}
 	for _, c := range conns {
 		log := c.peer.Log()
 		var goaways []wire.Entry
 		pingAfterFirst := false
+		hdrSeq, hdrAt := map[uint32]int{}, map[uint32]time.Duration{} // when the scripted client wrote a stream's HEADERS
+		lastAckSeq := -1                                              // the last PING ack written before the final GOAWAY was read
 		trailers := map[uint32]*wire.Entry{}
 		data := map[uint32][]byte{}
 		responded := map[uint32]bool{} // the server sent HEADERS or DATA on the stream (RST_STREAM is a refusal, not a response)
 		for i := range log {
 			e := &log[i]
 			if e.Dir != wire.In {
+				switch {
+				case e.Type == http2.FrameHeaders:
+					hdrSeq[e.Stream], hdrAt[e.Stream] = e.Seq, e.At
+				case e.Type == http2.FramePing && e.Ack() && len(goaways) == 1:
+					lastAckSeq = e.Seq
+				}
 				continue
 			}
 			switch e.Type {
@@ -413,6 +468,16 @@ func runServer(sc bscenario) *result {
 				continue
 			}
 			tr := trailers[s.id]
+			if tr == nil && !responded[s.id] &&
+				(lastAckSeq >= 0 && hdrSeq[s.id] > lastAckSeq || lastAckSeq < 0 && hdrAt[s.id] == final.At) {
+				// Class of a known defect: the stream's HEADERS raced with the creation of the
+				// final GOAWAY (written after the drain PING's ack, or at the instant of the
+				// fallback timer), the GOAWAY id covers it, the handler ran, and yet the
+				// connection was closed without a single response frame for it.
+				v("stream-covered-by-final-goaway-lost-in-race", "conn %d stream %d (<= final GOAWAY id %d): its HEADERS were written after the drain PING ack (log seq %d > %d, at %v; final GOAWAY read at %v); the handler ran (saw cancellation: %v), but the server closed the connection without any response frame for it", c.idx, s.id, F, hdrSeq[s.id], lastAckSeq, hdrAt[s.id], final.At, s.cancelled)
+				res.counters["accepted_streams_lost_in_final_goaway_race"]++
+				continue
+			}
 			if tr == nil {
 				v("accepted-stream-not-completed", "conn %d stream %d (<= final GOAWAY id %d): the handler ran but no trailers reached the client (handler saw cancellation: %v)", c.idx, s.id, F, s.cancelled)
 				continue
